@@ -179,6 +179,45 @@ func TestC10(t *testing.T) {
 				}
 				check(t, op.String())
 			},
+			"underflowprobe": func(t *rapid.T) {
+				// a copy reweighted until some or all bins underflow to exactly 0 (weights at or below one half of the
+				// smallest float vanish, the total of several such bins may not): a sketch none of whose bins holds
+				// anything is empty for the statistics too. (Only while every weight is an exact dyadic sum: after a
+				// unit change the count and a bin that should be equal can differ in the last place and fall on
+				// either side of the last rounding.)
+				if !dyadic {
+					t.Skip("non-dyadic phase")
+				}
+				cp := e.s.Copy()
+				for _, f := range []float64{0x1p-1000, math.Ldexp(1, -74-rapid.IntRange(0, 3).Draw(t, "extra"))} {
+					if err := cp.Reweight(f); err != nil {
+						t.Fatalf("C10 %s: Reweight(%v) of a copy refused: %v", e.cfg, f, err)
+					}
+				}
+				bins := 0
+				cp.ForEach(func(v, w float64) bool {
+					if !(w > 0) {
+						t.Fatalf("C10 %s: after underflowing reweightings iteration yields (%v,%v)", e.cfg, v, w)
+					}
+					bins++
+					return false
+				})
+				_, e1 := cp.GetMinValue()
+				if cp.IsEmpty() != (bins == 0) || (bins == 0 && (cp.GetCount() != 0 || cp.GetSum() != 0 || e1 == nil)) {
+					t.Fatalf("C10 %s: after underflowing reweightings %d bins hold weight but IsEmpty=%v count=%v sum=%v min error=%v", e.cfg, bins, cp.IsEmpty(), cp.GetCount(), cp.GetSum(), e1)
+				}
+				if bins == 0 && !e.s.IsEmpty() {
+					e.cl.label("every-bin-underflowed")
+					if err := cp.Add(e.safeV); err != nil {
+						t.Fatalf("C10 %s: Add(%v): %v", e.cfg, e.safeV, err)
+					}
+					mn, _ := cp.GetMinValue()
+					mx, _ := cp.GetMaxValue()
+					if mn != e.safeV || mx != e.safeV || cp.GetCount() != 1 || cp.GetSum() != e.safeV {
+						t.Fatalf("C10 %s: a sketch whose bins all underflowed, then Add(%v): min=%v max=%v count=%v sum=%v", e.cfg, e.safeV, mn, mx, cp.GetCount(), cp.GetSum())
+					}
+				}
+			},
 			"fromdata": func(t *rapid.T) {
 				// rebuild the exact sketch from its plain part and its four statistics (public constructors)
 				count, sum := e.s.GetCount(), e.s.GetSum()
